@@ -1755,10 +1755,10 @@ pub fn c04(ix: &Index) -> Vec<Viol> {
                         "cancelled-trace-delivered:exit-with-full-queue"
                     } else if overtaken {
                         "cancelled-trace-delivered:parked-cancel-overtaken"
-                    } else if full {
-                        "cancelled-trace-delivered:queue-full"
                     } else if cut {
                         "cancelled-trace-delivered:inconsistent-cut"
+                    } else if full {
+                        "cancelled-trace-delivered:queue-full"
                     } else {
                         "cancelled-trace-delivered"
                     };
@@ -1873,15 +1873,13 @@ pub fn c08(ix: &Index) -> Vec<Viol> {
 // ---------------------------------------------------------------------------------------------
 
 /// outcome of the first `submit` command issued by `vt` inside the operation interval
-fn submit_outcome(h: &Hist, vt: usize, t: (T, T)) -> Option<(bool, usize)> {
+fn submit_outcome(h: &Hist, vt: usize, t: (T, T)) -> Option<(bool, T)> {
     let mut it = h.hooks.iter().filter(|e| e.vt == Some(vt) && e.t > t.0 && e.t < t.1);
     while let Some(e) = it.next() {
         if let HookKind::Command { kind: "submit", .. } = e.kind {
-            let mut free = usize::MAX;
             for e2 in it.by_ref() {
                 match e2.kind {
-                    HookKind::BeforePush { free: f, .. } => free = f,
-                    HookKind::PushOutcome { ok } => return Some((ok, free)),
+                    HookKind::PushOutcome { ok } => return Some((ok, e2.t)),
                     HookKind::Command { .. } => return None,
                     _ => {}
                 }
@@ -1892,17 +1890,14 @@ fn submit_outcome(h: &Hist, vt: usize, t: (T, T)) -> Option<(bool, usize)> {
     None
 }
 
-fn start_outcome(h: &Hist, root: usize) -> Option<(bool, usize)> {
+fn start_outcome(h: &Hist, root: usize) -> Option<(bool, T)> {
     let r = &h.spans[root];
     let mut it = h.hooks.iter().filter(|e| e.vt == Some(r.create_vt) && e.t > r.create_t.0 && e.t < r.create_t.1);
     while let Some(e) = it.next() {
         if let HookKind::Command { kind: "start", .. } = e.kind {
-            let mut free = usize::MAX;
             for e2 in it.by_ref() {
-                match e2.kind {
-                    HookKind::BeforePush { free: f, .. } => free = f,
-                    HookKind::PushOutcome { ok } => return Some((ok, free)),
-                    _ => {}
+                if let HookKind::PushOutcome { ok } = e2.kind {
+                    return Some((ok, e2.t));
                 }
             }
         }
@@ -1930,6 +1925,29 @@ pub fn c09(ix: &Index) -> Vec<Viol> {
     }
     if names_ambiguous(h) {
         return out;
+    }
+    // Overload windows per vthread: from the end of a ring-fill episode until the end of the first
+    // complete collector cycle that starts after it. Outside of these windows the ring cannot be
+    // full (programs push far fewer than 10240 commands), so a dropped command is a violation —
+    // decided from the schedule, not from what the push site reports about free slots.
+    let mut windows: HashMap<usize, Vec<(T, T)>> = HashMap::new();
+    for e in &h.hooks {
+        if let (HookKind::Command { kind: "fill-done", .. }, Some(vt)) = (&e.kind, e.vt) {
+            let end = h.cycles.iter().find(|c| c.t0 > e.t && c.t1.is_some()).and_then(|c| c.t1).unwrap_or(T::MAX);
+            windows.entry(vt).or_default().push((e.t, end));
+        }
+    }
+    let in_window = |vt: usize, t: T| windows.get(&vt).map_or(false, |ws| ws.iter().any(|(a, b)| t >= *a && t <= *b));
+    for e in &h.hooks {
+        if let (HookKind::PushOutcome { ok: false }, Some(vt)) = (&e.kind, e.vt) {
+            if !in_window(vt, e.t) {
+                out.push(v(
+                    "C09",
+                    "dropped-while-queue-not-full",
+                    format!("vt{}: a command was dropped at t={} although the thread's queue cannot be full (no fill episode since the last complete collector cycle)", vt, e.t),
+                ));
+            }
+        }
     }
     // a send that fails although the ring has room
     for w in h.hooks.windows(2) {
@@ -1962,8 +1980,8 @@ pub fn c09(ix: &Index) -> Vec<Viol> {
         if !r.is_root || r.noop || !r.items[0].sampled {
             continue;
         }
-        if let Some((false, free)) = start_outcome(h, u) {
-            if free == 0 || free == usize::MAX {
+        if let Some((false, t)) = start_outcome(h, u) {
+            if in_window(r.create_vt, t) {
                 unit_unstarted.insert(u);
             }
         }
@@ -1984,9 +2002,11 @@ pub fn c09(ix: &Index) -> Vec<Viol> {
             return true;
         }
         match submit_outcome(h, vt, e.fin) {
-            Some((false, _)) => true,
+            // a dropped submit is a permitted omission only inside an overload window
+            Some((false, t)) => in_window(vt, t),
             Some((true, _)) => false,
-            None => true, // no submit observed (e.g. issued during a fill): do not demand it
+            // no push outcome observed for the submit: only acceptable inside an overload window
+            None => in_window(vt, e.fin.0) || in_window(vt, e.fin.1),
         }
     };
     // per (name, trace): demanded <= delivered <= possible
@@ -2005,7 +2025,6 @@ pub fn c09(ix: &Index) -> Vec<Viol> {
                 || unit_unstarted.contains(&e.unit)
                 || unit_commit_lost.contains(&e.unit)
                 || inconsistent_cut_possible(h, e.unit, Some((mvt, e.fin)))
-                || root.finish_vt.map_or(true, |fv| submit_outcome(h, fv, root.finish_t.unwrap_or((0, 0))).map_or(true, |o| !o.0) && false)
             {
                 must = false;
             }
@@ -2082,7 +2101,7 @@ pub fn c09(ix: &Index) -> Vec<Viol> {
         // thread lives"; that loss is C04's known finding)
         for x in c04(ix)
             .into_iter()
-            .filter(|x| x.sig.starts_with("cancelled-trace-delivered") && !x.sig.ends_with("exit-with-full-queue") && !x.sig.ends_with("parked-cancel-overtaken"))
+            .filter(|x| x.sig.starts_with("cancelled-trace-delivered") && !x.sig.ends_with("exit-with-full-queue") && !x.sig.ends_with("parked-cancel-overtaken") && !x.sig.ends_with("inconsistent-cut"))
         {
             let mut x = x;
             x.prop = "C09";
